@@ -79,6 +79,39 @@ def candidate_keys(fs, con):
     return sorted(keys)
 
 
+def small_model(vc, ex, con, fs, neg_goal, timeout_ms=4000):
+    """re-solve the refuted obligation asking for short lists and small integers, so that the counter-model rebuilds
+    into a handy concrete input; returns a model or None"""
+    st = vc.state
+    if st is None:
+        return None
+    h = st.old_heap if st.old_heap is not None else st.heap
+    env = st.old_env if st.old_env is not None else st.env
+    keys = candidate_keys(fs, con)[:40]
+    bounds = []
+    from .symex import VTuple, Closure
+    for name, term in env.items():
+        if isinstance(term, (VTuple, Closure)) or not z3.is_expr(term) or term.sort() != Val:
+            continue
+        a = Z.addr(term)
+        bounds.append(z3.Implies(Z.is_ref(term), z3.And(h.len_of(a) >= 0, h.len_of(a) <= 3, h.size_of(a) <= 8)))
+        bounds.append(z3.Implies(Z.is_i(term), z3.And(Z.iv(term) >= -4, Z.iv(term) <= 6)))
+        for k in keys:
+            sub = h.get(a, Z.mk_s(k))
+            bounds.append(z3.Implies(z3.And(Z.is_ref(term), Z.is_ref(sub)), z3.And(h.len_of(Z.addr(sub)) >= 0, h.len_of(Z.addr(sub)) <= 3)))
+            bounds.append(z3.Implies(z3.And(Z.is_ref(term), Z.is_i(sub)), z3.And(Z.iv(sub) >= -4, Z.iv(sub) <= 6)))
+    s = z3.Solver()
+    s.set('timeout', timeout_ms)
+    for p in vc.pc:
+        s.add(p)
+    s.add(neg_goal)
+    for b in bounds:
+        s.add(b)
+    if s.check() == z3.sat:
+        return s.model()
+    return None
+
+
 def concretise(model, vc, ex, con, fs, max_len=6):
     st = vc.state
     if st is None:
@@ -201,7 +234,7 @@ def build(desc, ident, stubs=None):
             o = make_instance(d.get('class') or con.self_class, ident)
             objs[key] = o
             for kk, vv in d['items'].items():
-                if kk.startswith('__'):
+                if not isinstance(kk, str) or kk.startswith('__') or not kk.isidentifier():
                     continue
                 try:
                     setattr(o, kk, v2p(vv))
